@@ -30,6 +30,7 @@ from translate import severity as T
 PID = "C15"
 K_FIX = "wire-fixInvalidChars"
 K_TAB = "wire-tab-in-filename"
+K_DUP = "dup-text-global-suppression-unmatched"
 
 
 def sha(x):
@@ -212,6 +213,55 @@ def x1(run, model, vh, quick):
                       {"messages": [vlib.show(m0) for m0 in ms], "rendered_texts": [vlib.show(t) for t in texts_impl],
                        "model_forwarded": vlib.show(m[:k]), "impl_forwarded": vlib.show(i[:k]), "case_line": vlib.enc_case(c),
                        "how": "echo <case_line> | build/harness/vh_c15 htlm  (templates %s / %s)" % ("{file}:{line}:{column}:{id}:{message}", "{file}:{line}:{column}:{info}")})
+    # suppression-state records: Suppression::toString, and the parent's reader (the real handleRead through a pipe)
+    n = 1500 if quick else 50000
+    wcases = [P.gen_ws(rng) for _ in range(n)]
+    d = vlib.correspond(run, "Suppression::toString", model, [vh, "sstr"], [c[:5] + [0, False, False, b""] for c in wcases], tag="sstr",
+                        nontrivial=lambda c, m, i: sha(vlib.enc_case(c)), bucket=lambda c, m, i: "line" if c[2] != -1 else "noline")
+    for c, m, i in d[:2]:
+        run.violation("sstr:" + sha(vlib.enc_case(c)), "Suppression::toString: model %s, implementation %s" % (vlib.show(m), vlib.show(i)),
+                      {"broken": "correspondence Suppression::toString", "case": vlib.show(c)}, found_input=False)
+    _, wo, _ = vlib.run_lines([model], [vlib.enc_case(["swire"] + c) for c in wcases])
+    wo = [vlib.dec_line(x) for x in wo]
+    wires = [w[0] for w in wo if w and len(w) == 3]
+    okflag = {w[0]: (w[1], w[2]) for w in wo if w and len(w) == 3}
+    bufs = [[w] for w in dict.fromkeys(wires) if w] + [[P.gen_wire_garbage(rng)] for _ in range(n // 2)]
+    bufs = [b for b in bufs if b[0] and b[0].count(b";") >= 4]
+
+    def sb(c, m, i):
+        if i and i[0] == b"n":
+            return "not added by addSuppression"
+        return ("wire_ok," if okflag.get(c[0], (b"0",))[0] == b"1" else "") + ("ok" if m and m[0] == b"ok" else "E" + (m[1].decode() if len(m) > 1 else "?"))
+
+    d = vlib.correspond(run, "handleRead REPORT_SUPPR record", model, [vh, "sread"], bufs, tag="sread", canon=P.canon_sread,
+                        nontrivial=lambda c, m, i: sha(c[0]) if not (i and i[0] == b"n") else None, bucket=sb)
+    shown = 0
+    for c, m, i in d:
+        if (i and i[0] == b"n") or shown >= 2:
+            continue
+        shown += 1
+        run.violation("sread:" + sha(c[0]), "handleRead on a suppression record %r: model %s, implementation %s" % (c[0][:60], vlib.show(m), vlib.show(i)),
+                      {"broken": "correspondence REPORT_SUPPR reader", "buf": vlib.show(c[0]), "model": vlib.show(m), "impl": vlib.show(i),
+                       "how": "echo %s | build/harness/vh_c15 sread" % vlib.enc_case(c)}, found_input=False)
+    # the round-trip property itself on the implementation: ws_ok records come back unchanged
+    _, io, _ = vlib.run_lines([vh, "sread"], [vlib.enc_case([w[0]]) if w and len(w) == 3 and w[0] else "-" for w in wo])
+    st = run.stream("suppression record round trip on implementation")
+    for c, w, i in zip(wcases, wo, io):
+        if not (w and len(w) == 3 and w[0]):
+            continue
+        i = P.canon_sread(vlib.dec_line(i))
+        st["evaluations"] += 1
+        b = "ws_ok" if w[1] == b"1" else "not_ws_ok"
+        st["hist"][b] = st["hist"].get(b, 0) + 1
+        if w[1] != b"1" or (i and i[0] == b"n"):
+            continue
+        st["nontrivial"].add(sha(w[0]))
+        sent = [b"ok"] + [vlib.dec(vlib.enc(x)) for x in c]
+        if i != sent:
+            st["disagreements"] += 1
+            if st["disagreements"] <= 2:
+                run.violation("swire-rt:" + sha(w[0]), "a ws_ok suppression record does not come back unchanged: sent %s, parent holds %s" % (vlib.show(sent), vlib.show(i)),
+                              {"record": vlib.show(c), "wire": vlib.show(w[0]), "parent": vlib.show(i)})
     # updateSuppressionState
     n = 800 if quick else 30000
     cs = []
@@ -303,6 +353,8 @@ def gen_project(rng, d, hostile=None):
         opts.append("--error-exitcode=%d" % rng.choice([1, 7]))
     if rng.random() < 0.2:
         opts.append("--inconclusive")
+    if hostile:
+        opts = ["--error-exitcode=1"]      # nothing that could hide the hostile finding
     if hostile == "nonprint":
         with open(os.path.join(d, "hostile.c"), "wb") as f:
             f.write(b"#error caf\xc3\xa9\tbar\nint hostile;\n")
@@ -409,6 +461,37 @@ def x2(run, quick):
         shutil.rmtree(base, ignore_errors=True)
 
 
+def witness_replays(run):
+    """the _refuted witnesses of parallel_eq_single, replayed on the binary"""
+    st = run.stream("witness replay on the binary")
+    base = tempfile.mkdtemp(prefix="c15_wit_")
+    try:
+        # C15_texts_ok_necessary_refuted: equal rendered texts within one file + a global suppression of the second finding
+        open(os.path.join(base, "a.c"), "w").write("int f(int x) {\n  int *p = 0;\n  int z = 0;\n  return *p + x / z;\n}\n")
+        open(os.path.join(base, "b.c"), "w").write("int g(int x) { return x; }\n")
+        opts = ["--enable=information", "--suppress=zerodiv", "--xml", "--template={file}:{line}:{severity}"]
+
+        def ids(par):
+            p = subprocess.run([vlib.CPPCHECK, "-q"] + opts + par + ["a.c", "b.c"], cwd=base, stdout=subprocess.PIPE, stderr=subprocess.PIPE, timeout=120)
+            return sorted(x for x in re.findall(r'<error id="([^"]*)"', p.stderr.decode("latin-1")) if x != "checkersReport"), p.returncode
+        ref = ids(["-j1"])
+        for par in (["-j2", "--executor=thread"], ["-j2", "--executor=process"]):
+            out = ids(par)
+            st["evaluations"] += 1
+            st["nontrivial"].add(" ".join(par))
+            st["hist"]["texts_ok," + par[1][11:]] = 1
+            if out != ref:
+                st["disagreements"] += 1
+                rep = {"files": {"a.c": open(os.path.join(base, "a.c")).read(), "b.c": open(os.path.join(base, "b.c")).read()},
+                       "options": opts, "parallel": par, "j1": ref, "jN": out, "theorem": "C15_texts_ok_necessary_refuted"}
+                if "unmatchedSuppression" in out[0] and "unmatchedSuppression" not in ref[0] and [x for x in out[0] if x != "unmatchedSuppression"] == ref[0]:
+                    run.violation(K_DUP, "a global suppression matching only a finding dropped as a same-text duplicate is reported unmatched under -jN, not under -j1", rep)
+                else:
+                    run.violation("witness:" + sha(repr((ref, out, par))), "texts_ok witness: -j1 %s vs %s %s" % (ref, " ".join(par), out), rep)
+    finally:
+        shutil.rmtree(base, ignore_errors=True)
+
+
 def check(run, replay):
     quick = run.tier == "quick"
     run.trusted_base += [
@@ -445,6 +528,7 @@ def check(run, replay):
     vh = vlib.build_harness(PID)
     x1(run, model, vh, quick)
     x2(run, quick)
+    witness_replays(run)
 
 
 if __name__ == "__main__":
